@@ -128,6 +128,9 @@ class FunctionEffects(ast.NodeVisitor):
                 self._bind(sub.target, None)
                 if isinstance(sub.target, ast.Name) and isinstance(sub.iter, ast.Name):
                     self.loop_over.setdefault(sub.target.id, []).append(sub.iter.id)
+                elif isinstance(sub.target, ast.Tuple) and len(sub.target.elts) == 2 and isinstance(sub.target.elts[1], ast.Name) and isinstance(sub.iter, ast.Call) \
+                        and isinstance(sub.iter.func, ast.Name) and sub.iter.func.id == "enumerate" and sub.iter.args and isinstance(sub.iter.args[0], ast.Name):
+                    self.loop_over.setdefault(sub.target.elts[1].id, []).append(sub.iter.args[0].id)  # for i, x in enumerate(xs): x runs over xs
             elif isinstance(sub, ast.With):
                 for it in sub.items:
                     if it.optional_vars is not None:
